@@ -27,12 +27,12 @@ func runC14(c *Ctx) {
 
 	e := c.Effects()
 	allow := map[string]string{
-		"Cell.propertyImpl.properties|store":    "measurements stored as properties of the cell under private keys (R14.2)",
-		"HTMLTable.template|store":              "parsed template cached on the wrapper itself",
-		"ErrorContainer.errors_|store":          "error list (only reached when a callback returns an error)",
-		"elem of ErrorContainer.errors_|append": "error list (only reached when a callback returns an error)",
-		"Row.ErrorContainer|store":              "lazy creation of a row's error container (only reached when a callback returns an error)",
-		"elem|append":                           "append to a slice that is not table state (result of a standard-library call)",
+		"Cell.propertyImpl." + anchorFieldName("", "propertyImpl", "properties") + "|store":      "measurements stored as properties of the cell under private keys (R14.2)",
+		"HTMLTable." + anchorFieldName("html", "HTMLTable", "template") + "|store":               "parsed template cached on the wrapper itself",
+		"ErrorContainer." + anchorFieldName("", "ErrorContainer", "errors_") + "|store":          "error list (only reached when a callback returns an error)",
+		"elem of ErrorContainer." + anchorFieldName("", "ErrorContainer", "errors_") + "|append": "error list (only reached when a callback returns an error)",
+		"Row.ErrorContainer|store": "lazy creation of a row's error container (only reached when a callback returns an error)",
+		"elem|append":              "append to a slice that is not table state (result of a standard-library call)",
 	}
 	nfn := 0
 	for _, rel := range []string{"csv", "html", "json", "markdown", "texttable"} {
